@@ -41,6 +41,17 @@ def text_hash(data: bytes) -> str | None:
 def make_call(call: dict, root: str, tool=None):
     """call: {entry, mode, text?, changes?, bh?, dry?, path?}  ->  zero-argument callable"""
     target = os.path.join(root, call.get("path") or TARGET)
+    # the same file named differently (mutual exclusion and comparison must not depend on the spelling of the path);
+    # "rel" needs the process's working directory to be ``root`` (run_race sees to that)
+    spell = call.get("spell") or "abs"
+    if spell == "dot":
+        target = os.path.join(root, ".", os.path.dirname(call.get("path") or TARGET), ".", os.path.basename(call.get("path") or TARGET))
+    elif spell == "dslash":
+        target = root + "//" + (call.get("path") or TARGET).replace("/", "//")
+    elif spell == "rel":
+        target = call.get("path") or TARGET
+    elif spell == "reldot":
+        target = "./" + (call.get("path") or TARGET)
     entry = call["entry"]
     bh = call.get("bh")
     if entry == "tool":
@@ -545,6 +556,9 @@ def gen_race(t: Tape, idx: int) -> dict:
             w["changes"] = {"MARK": f"chg_{m}w{i}"}
         w["bh"] = t.weighted([(cur_h, 8), (None, 2), (sha_text("stale"), 1)], "r.bh")
         writers.append(w)
+    if t.flag(300, "r.spell"):
+        for w in writers:
+            w["spell"] = t.pick(["abs", "dot", "dslash", "rel", "reldot"], "r.sp")
     if init is not None and t.flag(250, "r.editor"):
         writers.append({"entry": "editor", "mode": "stealth", "bh": None})
     knobs = {"sched": t.pick(["focus", "uniform", "focus"], "r.sched"), "switch_permille": t.pick([500, 300, 800, 150], "r.sw"),
@@ -612,7 +626,14 @@ def run_race(case: dict, stats: Stats | None = None) -> dict:
 
     sim.before_op, sim.after_op = before_op, after_op
     actors = [sim.add_actor(f"w{i}", make_call(w, root), faultable=True) for i, w in enumerate(writers)]
-    sim.run()
+    cwd_old = os.getcwd()
+    os.chdir(root)  # relative spellings of the target ("rel", "reldot") are relative to the sandbox root
+    try:
+        sim.run()
+    finally:
+        os.chdir(cwd_old)
+    if stats is not None and any(w.get("spell") not in (None, "abs") for w in writers):
+        stats.group("probes", "l2_mixed_path_spellings")
     if sim.bypass:
         raise seam.HarnessError(f"seam bypass: {sim.bypass[:3]}")
     outs = [outcome_of(w, a) for w, a in zip(writers, actors)]
@@ -865,6 +886,8 @@ def run_l2x_pair(i: int, j: int, stats: Stats, viols: list, cap: int = 3000):
         wj["text"] = wj["text"].replace("MARK::", "MARK::twin_")
     if i == j and wj.get("changes"):
         wj["changes"] = {"MARK": "twin_" + str(j)}
+    # the second writer names the file differently in four pairs out of five (same file, another spelling of its path)
+    wj["spell"] = ["abs", "rel", "dot", "dslash", "reldot"][(3 * i + j) % 5]
     prefix: list = []
     n = 0
     while n < cap:
